@@ -133,10 +133,15 @@ Proof.
 Qed.
 
 (* ------------------------------------------------------------------------------------------ *)
-(* 6. Restart equivalence: the registry file and the directory are the ONLY state.  Running a
-      history in one go equals running a prefix, stopping (all objects discarded), and running
-      the rest from the state left on disk. *)
-Theorem restart_equivalence : forall (st : state) (h1 h2 : list gop),
+(* 6. Restart (PARTIAL).  In the MODEL the registry file and the directory are the only state that is
+      carried from one operation to the next: running a history in one go equals running a prefix,
+      discarding everything else, and running the rest from the state left on disk.  This is a
+      statement about how the model is set up (it holds for any step function of that shape); that
+      the CODE keeps no further state between calculations issued through NEW objects is not proved
+      but exercised by the `restart` stream (the same sequences split over two fresh interpreters).
+      Per-object state (the name / declared files a re-used object carries) is an INPUT of each
+      operation (o_start, o_stale) and does not survive a restart. *)
+Theorem restart_equivalence_partial : forall (st : state) (h1 h2 : list gop),
   run_gops st (h1 ++ h2) =
   let '(st1, o1) := run_gops st h1 in let '(st2, o2) := run_gops st1 h2 in (st2, o1 ++ o2).
 Proof. exact run_gops_app. Qed.
@@ -145,17 +150,23 @@ Proof. exact run_gops_app. Qed.
 (* 7. An existing output is reused only if it exists and terminated normally; otherwise the
       program is run, and what is parsed afterwards is the output just written. *)
 Theorem reuse_only_if_normal : forall (st : state) (o : op),
-  (ob_invoked (snd (exec_op st o)) = false ->
+  (ex_inp_ok st o = true -> ob_invoked (snd (exec_op st o)) = false ->
      fs_exists (ex_fs1 st o) (ex_outF st o) = true /\ fs_normal (ex_fs1 st o) (ex_outF st o) = true) /\
-  (fs_exists (ex_fs1 st o) (ex_outF st o) && fs_normal (ex_fs1 st o) (ex_outF st o) = false ->
+  (ex_inp_ok st o = true ->
+   fs_exists (ex_fs1 st o) (ex_outF st o) && fs_normal (ex_fs1 st o) (ex_outF st o) = false ->
      ob_invoked (snd (exec_op st o)) = true) /\
   (ob_invoked (snd (exec_op st o)) = true -> o_out o <> ONoOutput ->
-     ob_energy (snd (exec_op st o)) = Some (o_req o)).
+     ob_energy (snd (exec_op st o)) = Some (o_req o)) /\
+  (* a declared input file is missing (NoInputError): nothing is run and nothing is parsed *)
+  (ex_inp_ok st o = false ->
+     ob_invoked (snd (exec_op st o)) = false /\ ob_energy (snd (exec_op st o)) = None /\
+     ob_raised (snd (exec_op st o)) = true).
 Proof.
-  intros st o. split; [|split].
-  - intros H. destruct (skip_means_normal st o H) as [H1 [H2 _]]. split; assumption.
+  intros st o. split; [|split; [|split]].
+  - intros Hok H. destruct (skip_means_normal st o Hok H) as [H1 [H2 _]]. split; assumption.
   - exact (not_normal_means_invoked st o).
   - intros H1 H2. exact (proj1 (invoked_result_is_fresh st o H1 H2)).
+  - exact (missing_input_means_nothing st o).
 Qed.
 
 (* 8. Never the result of a different calculation: in EVERY state reachable by clean operations
@@ -190,9 +201,27 @@ Theorem optimisation_results_same_identity : forall (st : state) (r r' : request
 Proof.
   intros st r r' Hr C. split.
   - intros H. pose proof (opt_skip_means_trajectory st r H) as E.
-    unfold exec_opt. destruct (fs_find (st_fs st) (trj_name (snd (reg_step (st_reg st) r)))) as [[nm own k]|]; [destruct k|]; exact E.
+    unfold exec_opt, exec_opt_late. destruct (fs_find (st_fs st) (trj_name (snd (reg_step (st_reg st) r)))) as [[nm own k]|]; [destruct k|]; exact E.
   - intros H. pose proof (opt_parsed_same_identity st r r' (reachable_inv st Hr) C H) as E.
     split; [exact E|]. intros pf Hc. exact (covered_sound id_fields pf r' r _ _ Hc E).
+Qed.
+
+(* 8b'. Theorem 8b is about optimisations that are built and run WITHOUT being changed in between.
+        CalculationExecutorO consults the registry only in __init__ (executors.py:350); run() never
+        does.  If the object is changed after it was built (or run a second time after a change),
+        it keeps its name, finds the trajectory of the calculation it was before and takes over
+        that result without running: rb (distance constraint 1.4) gets the result of ra (1.0). *)
+Theorem optimisation_late_change_refuted :
+  let ra := w_req "a" "OptKeywords()" (w_dist (1%Z, 1%positive)) None in
+  let rb := w_req "a" "OptKeywords()" (w_dist (7%Z, 5%positive)) None in
+  let st1 := fst (exec_opt init_state ra) in
+  (forall N, idf ra N <> idf rb N) /\
+  ob_invoked (snd (exec_opt_late st1 ra rb)) = false /\
+  ob_energy (snd (exec_opt_late st1 ra rb)) = Some ra /\
+  ob_name (snd (exec_opt st1 rb)) <> ob_name (snd (exec_opt_late st1 ra rb)).
+Proof.
+  cbv zeta. split; [intros N; vm_compute; congruence|].
+  split; [vm_compute; reflexivity|]. split; [vm_compute; reflexivity|vm_compute; congruence].
 Qed.
 
 (* 8c. "An identical request gets the same name" (theorem 2) is about requests issued through NEW
@@ -204,11 +233,11 @@ Theorem reused_object_same_request_refuted :
   let r1 := w_req "a" "SPKeywords('k1')" w_sp None in
   let r2 := w_req "a" "SPKeywords('k2')" w_sp None in
   exists n1 n2 n3,
-    map ob_name (snd (run_ops init_state [mkOp r1 ONormal CNone [] None; mkOp r2 ONormal CNone [] (Some n1);
-                                          mkOp r1 ONormal CNone [] (Some n2)])) = [n1; n2; n3] /\
+    map ob_name (snd (run_ops init_state [mkOp r1 ONormal CNone [] None []; mkOp r2 ONormal CNone [] (Some n1) [];
+                                          mkOp r1 ONormal CNone [] (Some n2) []])) = [n1; n2; n3] /\
     n3 <> n1 /\
-    map ob_invoked (snd (run_ops init_state [mkOp r1 ONormal CNone [] None; mkOp r2 ONormal CNone [] (Some n1);
-                                             mkOp r1 ONormal CNone [] (Some n2)])) = [true; true; true].
+    map ob_invoked (snd (run_ops init_state [mkOp r1 ONormal CNone [] None []; mkOp r2 ONormal CNone [] (Some n1) [];
+                                             mkOp r1 ONormal CNone [] (Some n2) []])) = [true; true; true].
 Proof.
   cbv zeta. exists (s2l "a_xtb"), (s2l "a_xtb0"), (s2l "a_xtb00").
   split; [vm_compute; reflexivity|]. split; [vm_compute; congruence|vm_compute; reflexivity].
@@ -219,14 +248,31 @@ Qed.
       every file of the directory that belongs to another calculation survives.  With
       everything=True the same holds for files the selection rule does not match. *)
 Theorem cleanup_only_own_files_partial : forall (st : state) (o : op) (f : file),
+  o_stale o = [] ->
   In f (ex_fs2 st o) -> f_owner f <> ex_N st o ->
   (o_cm o <> CEverything -> In f (st_fs (fst (exec_op st o)))) /\
   (o_cm o = CEverything -> f_name f <> ex_outF st o -> matches match_rule (ex_N st o) (f_name f) = false ->
      In f (st_fs (fst (exec_op st o)))).
 Proof.
-  intros st o f Hin Hown. split.
-  - intros H. exact (cleanup_keeps_foreign st o f H Hin Hown).
-  - intros H1 H2 H3. exact (cleanup_everything_keeps_unmatched st o f H1 Hin Hown H2 H3).
+  intros st o f Hst Hin Hown. split.
+  - intros H. exact (cleanup_keeps_foreign st o f Hst H Hin Hown).
+  - intros H1 H2 H3. exact (cleanup_everything_keeps_unmatched st o f Hst H1 Hin Hown H2 H3).
+Qed.
+(* The hypothesis `o_stale o = []` (the object declares no additional file it did not write in this
+   run) cannot be dropped: wrappers only ever APPEND to input.additional_filenames, so a re-used
+   object still declares the point-charge / xcontrol files of the calculation it was before, and the
+   plain clean_up(force=True) of the new calculation a_xtb0 deletes a file that belongs to a_xtb. *)
+Theorem cleanup_stale_declaration_refuted :
+  let r1 := w_req "a" "SPKeywords('k1')" w_sp (Some w_pc) in
+  let r2 := w_req "a" "SPKeywords('k2')" w_sp (Some w_pc) in
+  let st1 := fst (exec_op init_state (mkOp r1 ONormal CNone [s2l "a_xtb_xtb.pc"] None [])) in
+  let o2 := mkOp r2 ONormal CForce [s2l "a_xtb0_xtb.pc"] (Some (s2l "a_xtb")) [s2l "a_xtb_xtb.pc"] in
+  ex_N st1 o2 = s2l "a_xtb0" /\
+  (exists f, In f (ex_fs2 st1 o2) /\ f_name f = s2l "a_xtb_xtb.pc" /\ f_owner f = s2l "a_xtb") /\
+  fs_exists (st_fs (fst (exec_op st1 o2))) (s2l "a_xtb_xtb.pc") = false.
+Proof.
+  cbv zeta. split; [vm_compute; reflexivity|]. split; [|vm_compute; reflexivity].
+  exists (mkFile (s2l "a_xtb_xtb.pc") (s2l "a_xtb") KInput). split; [vm_compute; tauto|split; reflexivity].
 Qed.
 (* The full clause is false (executors.py:199 matches by name PREFIX): after `a` was run twice
    with different keywords (names a_xtb and a_xtb0), cleaning up the first with everything=True
